@@ -104,9 +104,28 @@ type NsView struct {
 // namespace ns. Auth backends are resolved to the service they point to and userlists
 // to their content: numbering and names of shared objects are not compared.
 func (p *Pipeline) ViewOf(ns string, hostnames map[string]bool) NsView {
+	return p.view(ns, hostnames, false)
+}
+
+// ViewAll is ViewOf for the whole haproxy model: every host, every backend (the ones named
+// after objects of other namespaces included), every TCP service, plus the userlists.
+func (p *Pipeline) ViewAll() NsView {
+	v := p.view("", nil, true)
+	for _, u := range p.HAProxy.Userlists().BuildSortedItems() {
+		var us []string
+		for _, x := range u.Users {
+			us = append(us, fmt.Sprintf("%s:%s:%v", x.Name, x.Passwd, x.Encrypted))
+		}
+		v.Hosts = append(v.Hosts, fmt.Sprintf("userlist %s [%s]", u.Name, strings.Join(us, ",")))
+	}
+	sort.Strings(v.Hosts)
+	return v
+}
+
+func (p *Pipeline) view(ns string, hostnames map[string]bool, all bool) NsView {
 	var v NsView
 	for _, h := range p.HAProxy.Hosts().BuildSortedItems() {
-		if !hostnames[h.Hostname] {
+		if !all && !hostnames[h.Hostname] {
 			continue
 		}
 		t := h.TLS
@@ -129,7 +148,7 @@ func (p *Pipeline) ViewOf(ns string, hostnames map[string]bool) NsView {
 		users[u.Name] = strings.Join(us, ",")
 	}
 	for _, b := range p.Backends() {
-		if b.Namespace != ns {
+		if !all && b.Namespace != ns {
 			continue
 		}
 		sv := b.Server
@@ -154,11 +173,11 @@ func (p *Pipeline) ViewOf(ns string, hostnames map[string]bool) NsView {
 	}
 	// TCP services that point to a backend of the namespace
 	for port, tp := range p.HAProxy.TCPServices().Items() {
-		if dh := tp.DefaultHost(); dh != nil && !dh.Backend.IsEmpty() && dh.Backend.Namespace == ns {
+		if dh := tp.DefaultHost(); dh != nil && !dh.Backend.IsEmpty() && (all || dh.Backend.Namespace == ns) {
 			v.Hosts = append(v.Hosts, fmt.Sprintf("tcp %d->%s", port, dh.Backend.String()))
 		}
 		for _, h := range tp.Hosts() {
-			if !h.Backend.IsEmpty() && h.Backend.Namespace == ns {
+			if !h.Backend.IsEmpty() && (all || h.Backend.Namespace == ns) {
 				v.Hosts = append(v.Hosts, fmt.Sprintf("tcp %d host->%s", port, h.Backend.String()))
 			}
 		}
